@@ -20,6 +20,25 @@ CHECKS = {
     'C16': ('model_checking', 'Engine A', A_TEXT + '; oracle: post-state is one of the admissible documented effects (incl. frame) for every returning transition', A_NOTE, 'explicit-state model checking (BFS) with lock-step reference model conformance', '4, 7 C16'),
 }
 
+B_TEXT = ('direct stateless exploration of the implementation: every input of the finite scenario layers (all hierarchy shapes '
+          'with <=4 tasks x all link placements x attribute/calendar/start menus) is scheduled under a virtual clock, and the '
+          'environment (clock reads, lazy calendar answers) is explored as a deviation-bounded choice tree; oracle: ')
+B_NOTE = ('trusted: the harness-side clock seam (canary-checked each run) and calendar proxies, the oracle clauses of DESIGN '
+          'section 7, dyadic value alphabet compared exactly (decimal layer with 1e-9 / 1 s tolerance)')
+B_TECH = 'bounded-exhaustive stateless exploration of the scheduler: input layers x deviation-bounded environment choice tree'
+B_ORACLES = {
+    'C02': 'no unfixed leaf starts or reserves before any own/inherited prerequisite end, project start, min_start or today; milestone placement',
+    'C03': 'rows positive, on the resource named by the task, on days with capacity; per-day sums within capacity (per task when balancing is off); report views agree with rows; default resources present',
+    'C04': 'reserved == remaining work exactly, once per day, inside [start day, end); start/end vs first/last reserved day; nothing reserved for milestones, completed and summary tasks; fixed dates returned unchanged',
+    'C06': 'input observation identical before/after calc, result separate and faithful, repeated calls (same/fresh scheduler, all call histories <=3) equal, forward result independent of all clock histories at or before the project start',
+    'C07': 'start <= end, summary start/end/estimate/spent equal the roll-up of the children, WBS.start/end over all tasks',
+    'C08': 'every day from release day up to the last work day fully booked, exact start/end capacity encoding, WBS order among independent leaves, removing unrelated tasks (balancing off) leaves dates unchanged',
+    'C09': 'no end after the deadline, every own/inherited dependency respected, late packing, end-of-day capacity encoding of start and end',
+    'C14': 'all layers incl. unschedulable inputs (external undated predecessors, future fixed ends, never-available resources, hierarchy-closing cycles) under a calendar-lookup budget: outcome is a Schedule or a RuntimeError that is not a RecursionError, and the four named classes must raise',
+}
+for _p, _o in B_ORACLES.items():
+    CHECKS[_p] = ('exploration', 'Engine B', B_TEXT + _o, B_NOTE, B_TECH, '5, 7 ' + _p)
+
 ENGINES = [
     {'name': 'Engine A', 'path': 'vf/explore/bfs.py', 'serves_properties': ['C01', 'C05', 'C11', 'C15', 'C16', 'C10', 'C18'],
      'kind_free_text': 'explicit-state BFS over the real mutation API with lock-step reference semantics'},
